@@ -792,3 +792,17 @@ func TestD38_FrozenViewTotalsOverflowInt(t *testing.T) {
 		t.Fatal("FrozenView accepted a footer whose payload is missing")
 	}
 }
+
+// #39 C14: the documented bound holds for cardinalities from 2^31 on also where int has 32 bits.
+// Shows the defect only when run with GOARCH=386 on the unrepaired tree.
+func TestD39_BoundSerializedSizeOn32BitTargets(t *testing.T) {
+	full := roaring.New()
+	full.AddRange(0, 1<<32)
+	size := full.GetSerializedSizeInBytes()
+	if bound := roaring.BoundSerializedSizeInBytes(1<<32, 1<<32); bound < size {
+		t.Fatalf("BoundSerializedSizeInBytes(2^32, 2^32) = %d, but the full bitmap serializes to %d bytes", bound, size)
+	}
+	if b1, b2 := roaring.BoundSerializedSizeInBytes(1<<31, 1<<32), roaring.BoundSerializedSizeInBytes(1<<31-1, 1<<32); b1 < b2 {
+		t.Fatalf("the bound for 2^31 values (%d) is below the bound for 2^31-1 values (%d)", b1, b2)
+	}
+}
